@@ -190,7 +190,40 @@ type step struct {
 	Kind   string         `json:"kind"`
 	Faults []flt          `json:"faults,omitempty"`
 	Lag    int            `json:"lag,omitempty"`
-	Mid    map[int]string `json:"mid,omitempty"` // claim reconcile only: environment step performed just before API call k
+	Catch  catchUp        `json:"catch,omitempty"` // how the cached claim catches up DURING the reconcile
+	Mid    map[int]string `json:"mid,omitempty"`   // claim reconcile only: environment step performed just before API call k
+}
+
+// catchUp says how the lag of the cached claim shrinks during one reconcile (a real informer cache
+// catches up while the reconcile runs). Zero value: every claim read of the run lags by Lag writes.
+// Reads=k: only the first k claim reads of the run lag, later reads are fresh. Decay: each claim
+// read lags one write less than the previous one. The view never goes back in time.
+type catchUp struct {
+	Reads int  `json:"reads,omitempty"`
+	Decay bool `json:"decay,omitempty"`
+}
+
+func (c catchUp) String() string {
+	switch {
+	case c.Decay:
+		return "decay"
+	case c.Reads > 0:
+		return fmt.Sprintf("first-%d-reads", c.Reads)
+	}
+	return "constant"
+}
+
+func genCatchUp() *rapid.Generator[catchUp] {
+	return rapid.Custom(func(t *rapid.T) catchUp {
+		switch rapid.IntRange(0, 3).Draw(t, "catchkind") {
+		case 0:
+			return catchUp{}
+		case 1:
+			return catchUp{Decay: true}
+		default:
+			return catchUp{Reads: rapid.IntRange(1, 2).Draw(t, "staleReads")}
+		}
+	})
 }
 
 var envKinds = []string{"xr", "delete", "edit", "ready", "gc", "other", "xr", "delete-other"}
@@ -205,6 +238,9 @@ func genStep() *rapid.Generator[step] {
 				st.Faults = append(st.Faults, flt{K: rapid.IntRange(0, 14).Draw(t, "k"), Kind: f.Kind.String(), Err: f.Err})
 			}
 			st.Lag = rapid.SampledFrom([]int{0, 0, 0, 1, 2, 3, 4, 6}).Draw(t, "lag")
+			if st.Lag > 0 {
+				st.Catch = genCatchUp().Draw(t, "catch")
+			}
 			if rapid.IntRange(0, 3).Draw(t, "hasmid") == 0 {
 				st.Mid = map[int]string{rapid.IntRange(0, 12).Draw(t, "midk"): rapid.SampledFrom(envKinds).Draw(t, "midkind")}
 			}
@@ -244,7 +280,7 @@ type wstate struct {
 	// refHist[key][i] is the spec.resourceRef.name of the i-th stored version of a claim ("" if none / absent).
 	refHist map[verifsim.Key][]string
 	// seen: the newest version index of the claim its controller has observed (monotone cache).
-	seen map[claimID]int
+	seen  map[claimID]int
 	edits int
 }
 
@@ -276,7 +312,10 @@ type world struct {
 
 	// facts about the most recent claim reconcile (for the non-triviality rule)
 	lastStaleRef bool // the observed claim version's resourceRef differs from the stored one
-	lastLag      int
+	lastLag      int  // effective lag of the run's FIRST claim read
+	lastReads    int  // claim reads of the run
+	// catch is the catch-up policy of the NEXT claim reconcile (consumed by it).
+	catch catchUp
 }
 
 var xrGK = verifenv.XRGVKDefault.GroupKind()
@@ -527,7 +566,10 @@ func (w *world) check(ctx string) {
 // in time); `mid` performs environment steps just before the k-th API call of this reconcile.
 func (w *world) claimReconcile(c claimID, plan map[int]verifsim.Fault, lag int, mid map[int]string) (*verifsim.Run, error) {
 	run := w.sim.NewRun(c.actor(), plan)
-	w.lastStaleRef, w.lastLag = false, 0
+	w.lastStaleRef, w.lastLag, w.lastReads = false, 0, 0
+	pol := w.catch
+	w.catch = catchUp{}
+	reads := 0
 	ck := c.key()
 	sc := run.StaleClient(func(k verifsim.Key) int {
 		if k != ck {
@@ -538,7 +580,17 @@ func (w *world) claimReconcile(c claimID, plan map[int]verifsim.Fault, lag int, 
 		if cur < 0 {
 			return 0
 		}
-		target := cur - lag
+		l := lag
+		switch {
+		case pol.Decay:
+			l = lag - reads
+		case pol.Reads > 0 && reads >= pol.Reads:
+			l = 0
+		}
+		if l < 0 {
+			l = 0
+		}
+		target := cur - l
 		if target < w.st.seen[c] && !nonMonotone {
 			target = w.st.seen[c]
 		}
@@ -549,7 +601,11 @@ func (w *world) claimReconcile(c claimID, plan map[int]verifsim.Fault, lag int, 
 			target = cur
 		}
 		w.st.seen[c] = target
-		w.lastLag = cur - target
+		if reads == 0 {
+			w.lastLag = cur - target
+		}
+		reads++
+		w.lastReads = reads
 		if h[target] != h[cur] {
 			w.lastStaleRef = true
 		}
@@ -813,12 +869,13 @@ func (w *world) prefix(stage string) {
 // TestVerifC06Sweep: for a generated scenario and stage, every API call index of the next claim
 // reconcile is hit with every fault kind, followed by fault-free rounds.
 func TestVerifC06Sweep(t *testing.T) {
-	rec := verifkit.New(t, "C06", "scenario = claim content x pre-existing XR class {none, bound to another claim (organic/dangling; differs in name/namespace/both/kind), unbound; referenced or bystander} x syncer {csa, ssa, csa->ssa upgrade} x stage {fresh, bound, steady, edited, deleting}; the next claim reconcile (claim read lagging 0..n writes) is swept over every API call index x {conflict, 500, lost reply, crash-before, crash-after}, then fault-free rounds (first one possibly stale) with the real XR reconciler; non-trivial = fault after-effect (crash-after/lost reply) on the claim Update that records resourceRef, or a claim read that lags a write of resourceRef, or the claim references an XR bound to another claim")
+	rec := verifkit.New(t, "C06", "scenario = claim content x pre-existing XR class {none, bound to another claim (organic/dangling; differs in name/namespace/both/kind), unbound; referenced or bystander} x syncer {csa, ssa, csa->ssa upgrade} x stage {fresh, bound, steady, edited, deleting}; the next claim reconcile (claim read lagging 0..n writes; the lag is constant during the reconcile, or only the first k claim reads lag, or it decays by one per read) is swept over every API call index x {conflict, 500, lost reply, crash-before, crash-after}, then fault-free rounds (first one possibly stale) with the real XR reconciler; non-trivial = fault after-effect (crash-after/lost reply) on the claim Update that records resourceRef, or a claim read that lags a write of resourceRef, or the claim references an XR bound to another claim")
 	rapid.Check(t, func(t *rapid.T) {
 		sc := genScenario().Draw(t, "scenario")
 		stage := rapid.SampledFrom(sweepStages).Draw(t, "stage")
 		lag := rapid.SampledFrom([]int{1, 2, 3, 4, 6}).Draw(t, "lag")
 		followLag := rapid.SampledFrom([]int{0, 0, 1, 2, 4}).Draw(t, "followLag")
+		catch := genCatchUp().Draw(t, "catch")
 		rec.Eval()
 		rec.Label("config=" + sc.config())
 		rec.Label("pre=" + sc.Pre + fmt.Sprintf("/referenced=%v", sc.Referenced))
@@ -830,9 +887,9 @@ func TestVerifC06Sweep(t *testing.T) {
 			w.ssaNow = true
 		}
 		// Once with a live claim read, once with a claim read that lags the store (if the claim has that many versions).
-		sweep(w, rec, stage, 0, followLag)
+		sweep(w, rec, stage, 0, catchUp{}, followLag)
 		for l := 1; l <= lag; l++ {
-			if eff := sweep(w, rec, stage, l, followLag); eff < l {
+			if eff := sweep(w, rec, stage, l, catch, followLag); eff < l {
 				break // the claim has no older version the controller could still be looking at
 			}
 		}
@@ -840,13 +897,14 @@ func TestVerifC06Sweep(t *testing.T) {
 }
 
 // sweep returns the effective lag of the swept reconcile's claim read.
-func sweep(w *world, rec *verifkit.Recorder, stage string, lag, followLag int) int {
+func sweep(w *world, rec *verifkit.Recorder, stage string, lag int, catch catchUp, followLag int) int {
 	sc := w.sc
 	base := w.sim.Snapshot()
 	baseSt := w.st.clone()
 	baseLog := w.sim.LogLen()
 	seed := sc.Seed + int64(len(stage))*7919
 	utilrand.Seed(seed)
+	w.catch = catch
 	probe, _ := w.claimReconcile(sc.Claim, nil, lag, nil)
 	staleRef := w.lastStaleRef
 	if lag > 0 && w.lastLag == 0 {
@@ -863,6 +921,9 @@ func sweep(w *world, rec *verifkit.Recorder, stage string, lag, followLag int) i
 		return effLag
 	}
 	rec.Labelf("sweep-effective-lag=%d", effLag)
+	if lag > 0 {
+		rec.Label("sweep-stale-policy=" + catch.String())
+	}
 	w.check(fmt.Sprintf("stage %s / fault-free probe (lag %d)", stage, lag))
 	probeLog := w.sim.Log()[baseLog:]
 	K := probe.N
@@ -879,6 +940,7 @@ func sweep(w *world, rec *verifkit.Recorder, stage string, lag, followLag int) i
 			w.st = baseSt.clone()
 			utilrand.Seed(seed)
 			ctx := fmt.Sprintf("stage %s / claim read lag %d / fault %s(%s) at API call %d of %d [%s]", stage, lag, f.Kind, f.Err, k, K, callName(probe, k))
+			w.catch = catch
 			_, _ = w.claimReconcile(sc.Claim, map[int]verifsim.Fault{k: f}, lag, nil)
 			w.check(ctx)
 			w.settle(ctx, 3, followLag)
@@ -890,8 +952,8 @@ func sweep(w *world, rec *verifkit.Recorder, stage string, lag, followLag int) i
 				rec.Label("fault-after-claim-Update-of-resourceRef")
 			}
 			if crashOnRef || staleRef || foreignRef {
-				rec.NonTrivial(fmt.Sprintf("%s|%s|%d|%d|%d|%v", verifkit.JSON(sc), stage, lag, followLag, k, f), func() any {
-					return map[string]any{"scenario": sc, "stage": stage, "lag": lag, "fault": f.Kind.String(), "err": f.Err, "call_index": k, "call": callName(probe, k), "calls_in_reconcile": K,
+				rec.NonTrivial(fmt.Sprintf("%s|%s|%d|%d|%d|%v", verifkit.JSON(sc), stage, lag, followLag, k, f)+catch.String(), func() any {
+					return map[string]any{"scenario": sc, "stage": stage, "lag": lag, "catch_up": catch.String(), "fault": f.Kind.String(), "err": f.Err, "call_index": k, "call": callName(probe, k), "calls_in_reconcile": K,
 						"crash_after_resourceRef_update": crashOnRef, "stale_read_lags_resourceRef": staleRef, "foreign_referenced": foreignRef}
 				})
 			}
@@ -913,7 +975,7 @@ func callName(r *verifsim.Run, k int) string {
 // environment steps injected between two API calls of the reconcile) interleaved with the XR
 // controller, the other claim's controller, claim edits and claim deletion.
 func TestVerifC06Histories(t *testing.T) {
-	rec := verifkit.New(t, "C06", "random histories: claim reconciles each with 0-2 faults, a claim read lagging 0..6 writes (monotone cache) and optionally an environment step (XR reconcile, claim deletion, edit, other claim's reconcile) injected just before API call k; interleaved with XR reconciles, the other claim's controller, user edits/deletion, GC; then fault-free rounds; non-trivial as in the sweep")
+	rec := verifkit.New(t, "C06", "random histories: claim reconciles each with 0-2 faults, a claim read lagging 0..6 writes (monotone cache; lag constant during the reconcile, or only the first k claim reads lag, or each read lags one write less) and optionally an environment step (XR reconcile, claim deletion, edit, other claim's reconcile) injected just before API call k; interleaved with XR reconciles, the other claim's controller, user edits/deletion, GC; then fault-free rounds; non-trivial as in the sweep")
 	rapid.Check(t, func(t *rapid.T) {
 		sc := genScenario().Draw(t, "scenario")
 		rec.Eval()
@@ -938,7 +1000,14 @@ func TestVerifC06Histories(t *testing.T) {
 				continue
 			}
 			logStart := w.sim.LogLen()
+			w.catch = st.Catch
 			run, _ := w.claimReconcile(sc.Claim, planOf(st.Faults), st.Lag, st.Mid)
+			if w.lastLag > 0 {
+				rec.Label("stale-policy=" + st.Catch.String())
+				if w.lastReads > 1 {
+					rec.Label("claim-re-read-within-reconcile")
+				}
+			}
 			w.check(ctx)
 			if w.lastStaleRef {
 				nontrivial = true
@@ -1066,34 +1135,39 @@ func TestVerifC06PinnedCrashAfterRefUpdate(t *testing.T) {
 // and the XR exists; the reconcile must be refused (Conflict), not create a second XR.
 func TestVerifC06PinnedStaleClaim(t *testing.T) {
 	for _, sc := range pinnedScenarios() {
-		for lag := 1; lag <= 6; lag++ {
-			w := newWorld(sc, func(f string, a ...any) { t.Fatalf(f, a...) })
-			w.ssaNow = sc.SSA
-			utilrand.Seed(7)
-			if _, err := w.claimReconcile(sc.Claim, nil, 0, nil); err != nil {
-				t.Fatalf("%s: %v", sc.config(), err)
-			}
-			first := xrNames(w)
-			l0 := w.sim.LogLen()
-			_, _ = w.claimReconcile(sc.Claim, nil, lag, nil)
-			stale := w.lastStaleRef
-			w.check(fmt.Sprintf("pinned stale lag %d", lag))
-			if n := xrNames(w); len(n) != 1 || n[0] != first[0] {
-				t.Fatalf("%s lag %d: XRs %v, expected %v", sc.config(), lag, n, first)
-			}
-			if stale {
-				refused := false
-				for _, wr := range w.sim.Log()[l0:] {
-					if wr.Key == sc.Claim.key() && strings.Contains(wr.Err, "Conflict") {
-						refused = true
+		for _, catch := range []catchUp{{}, {Reads: 1}, {Reads: 2}, {Decay: true}} {
+			for lag := 1; lag <= 6; lag++ {
+				w := newWorld(sc, func(f string, a ...any) { t.Fatalf(f, a...) })
+				w.ssaNow = sc.SSA
+				utilrand.Seed(7)
+				if _, err := w.claimReconcile(sc.Claim, nil, 0, nil); err != nil {
+					t.Fatalf("%s: %v", sc.config(), err)
+				}
+				first := xrNames(w)
+				l0 := w.sim.LogLen()
+				// The cache catches up during the reconcile (catch): a code path that re-reads the claim
+				// after a Conflict sees the stored resourceRef and must not overwrite it.
+				w.catch = catch
+				_, _ = w.claimReconcile(sc.Claim, nil, lag, nil)
+				stale := w.lastStaleRef
+				w.check(fmt.Sprintf("pinned stale lag %d, cache catch-up %s", lag, catch))
+				if n := xrNames(w); len(n) != 1 || n[0] != first[0] {
+					t.Fatalf("%s lag %d: XRs %v, expected %v", sc.config(), lag, n, first)
+				}
+				if stale {
+					refused := false
+					for _, wr := range w.sim.Log()[l0:] {
+						if wr.Key == sc.Claim.key() && strings.Contains(wr.Err, "Conflict") {
+							refused = true
+						}
+					}
+					if !refused {
+						t.Fatalf("%s lag %d: the reconcile read a claim without resourceRef but no claim write was refused with a Conflict", sc.config(), lag)
 					}
 				}
-				if !refused {
-					t.Fatalf("%s lag %d: the reconcile read a claim without resourceRef but no claim write was refused with a Conflict", sc.config(), lag)
-				}
+				w.settle("pinned stale", 2, 0)
+				w.converged("pinned stale")
 			}
-			w.settle("pinned stale", 2, 0)
-			w.converged("pinned stale")
 		}
 	}
 }
